@@ -167,11 +167,16 @@ class World:
         try:
             env = {}
             i = 0
+            cells = getattr(self, "_pending_cells", None)
+            self._pending_cells = None
             for inp in fn["sig"]["inputs"]:
                 if inp.get("self"):
                     env["self"] = args[i]
                 else:
                     self.bind(inp["pat"], args[i], env, [])
+                    # a `&mut` argument that names a field of a node in the caller: `*param = v` writes through
+                    if cells and i < len(cells) and cells[i] is not None and inp["pat"]["k"] == "PIdent":
+                        env["&" + inp["pat"]["name"]] = cells[i]
                 i += 1
             uses = []
             try:
@@ -266,7 +271,12 @@ class World:
             if s["k"] == "Local":
                 if s["init"] is None:
                     raise Unsupported("let without init")
-                v = self.eval(s["init"], env, uses)
+                init_ = s["init"]
+                if s.get("ty") and init_.get("k") == "MethodCall" and init_.get("method") == "collect" and not init_.get("turbofish"):
+                    init_ = dict(init_, turbofish=s["ty"])  # `let x: HashSet<_> = it.collect()`: the annotation picks the collection
+                elif s.get("ty") and init_.get("k") == "Try" and init_["e"].get("k") == "MethodCall" and init_["e"].get("method") == "collect" and not init_["e"].get("turbofish"):
+                    init_ = dict(init_, e=dict(init_["e"], turbofish="Result<%s>" % s["ty"]))
+                v = self.eval(init_, env, uses)
                 for b_ in walk(s["pat"]):
                     if b_["k"] == "PIdent":
                         declared.add(b_["name"])
@@ -613,6 +623,18 @@ class World:
             return inner if is_some else self.apply(args[0], [], uses)
         if m == "map_or" and len(args) == 2:
             return self.apply(args[1], [inner], uses) if is_some else args[0]
+        if m == "or_else" and len(args) == 1:
+            return recv if is_some else self.apply(args[0], [], uses)
+        if m == "xor" and len(args) == 1:
+            o = args[0]
+            o_some = isinstance(o, tuple) and o[0] == "S" and o[1] == "Some"
+            return recv if is_some and not o_some else (o if o_some and not is_some else NONE)
+        if m in ("is_some_and", "is_none_or") and len(args) == 1:
+            if is_some:
+                return self.truth(self.apply(args[0], [inner], uses))
+            return m == "is_none_or"
+        if m == "map_or_else" and len(args) == 2:
+            return self.apply(args[1], [inner], uses) if is_some else self.apply(args[0], [], uses)
         if m == "or" and len(args) == 1:
             return recv if is_some else args[0]
         if m == "is_some" and not args:
